@@ -219,11 +219,36 @@ case_strategy = st.builds(
 
 
 def shards(tier):
-    return [{'name': 'hostile-%d' % i, 'kind': 'hyp', 'examples': 800 if tier == 'quick' else 9000, 'hypothesis': True}
-            for i in range(16)]
+    out = [{'name': 'hostile-%d' % i, 'kind': 'hyp', 'examples': 800 if tier == 'quick' else 9000, 'hypothesis': True}
+           for i in range(16)]
+    if tier == 'thorough':
+        out += [{'name': 'atheris-%d' % i, 'kind': 'atheris', 'seconds': 240, 'fuzzseed': i + 1} for i in range(16)]
+    return out
+
+
+STATES = ['ESTABLISHED', 'ESTABLISHED', 'OPENCONFIRM', 'OPENSENT']
+TYPES = [2, 2, 2, 2, 2, 1, 3, 5, 128, 4]
+DECODERS = [0]      # (only used by the corpus seeding of vlib.fuzz_atheris)
+
+
+def fuzz_case(data):
+    data = bytes(data)
+    b0 = data[0] if data else 0
+    b1 = data[1] if len(data) > 1 else 0
+    return {'state': STATES[b0 % 4], 'as4': bool(b0 & 4), 'pre': (b0 >> 3) & 1, 'post': 1 + ((b0 >> 4) & 1),
+            'type': TYPES[b1 % len(TYPES)], 'body': data[2:4000].hex(), 'kind': 'atheris'}
+
+
+def fuzz_one(data):
+    return check_case(fuzz_case(data))[0]
 
 
 def run_shard(spec, seed, col, tier):
+    if spec['kind'] == 'atheris':
+        import sys as _sys
+        from vlib import fuzzshard
+        fuzzshard.run('C10', _sys.modules[__name__], col, spec['seconds'], spec['fuzzseed'])
+        return
     def body(case):
         res, cls = check_case(case)
         col.case(case, len(case['body']) >= 2 and case['post'] >= 1,
